@@ -201,6 +201,10 @@ func (r *bufferReader) readAgentIDs() []identity.AgentID {
 	if r.err != nil {
 		return nil
 	}
+	if count*identity.IDSize > r.remaining() {
+		r.setError("agentID truncated")
+		return nil
+	}
 	ids := make([]identity.AgentID, count)
 	for i := 0; i < count; i++ {
 		ids[i] = r.readAgentID()
@@ -507,7 +511,7 @@ func (s *StreamOpenAck) Encode() []byte {
 
 // DecodeStreamOpenAck deserializes StreamOpenAck from bytes.
 func DecodeStreamOpenAck(buf []byte) (*StreamOpenAck, error) {
-	if len(buf) < 12+EphemeralKeySize { // 8 + 1 + 1 + 2 + 32 minimum (empty addr + key)
+	if len(buf) < 11+EphemeralKeySize { // 8 + 1 + 2 + 32 minimum (empty addr + key)
 		return nil, fmt.Errorf("%w: StreamOpenAck too short", ErrInvalidFrame)
 	}
 
@@ -739,6 +743,10 @@ func DecodeAgentPrefix(prefix []byte) identity.AgentID {
 	return id
 }
 
+// minRouteSize is the smallest encoding of one route: family(1) + prefixLen(1) + prefix(>=1) + metric(2).
+// Decoders reject a route count that cannot fit in the remaining bytes before allocating for it.
+const minRouteSize = 5
+
 // RouteAdvertise is the payload for ROUTE_ADVERTISE frames.
 type RouteAdvertise struct {
 	OriginAgent       identity.AgentID
@@ -815,6 +823,9 @@ func DecodeRouteAdvertise(buf []byte) (*RouteAdvertise, error) {
 	}
 
 	routeCount := int(rd.readUint8())
+	if routeCount*minRouteSize > rd.remaining() {
+		return nil, fmt.Errorf("%w: RouteAdvertise routes truncated", ErrInvalidFrame)
+	}
 	ra.Routes = make([]Route, routeCount)
 	for i := 0; i < routeCount && rd.err == nil; i++ {
 		route := &ra.Routes[i]
@@ -934,6 +945,9 @@ func DecodeRouteWithdraw(buf []byte) (*RouteWithdraw, error) {
 	}
 
 	routeCount := int(rd.readUint8())
+	if rd.err != nil || routeCount*minRouteSize > rd.remaining() {
+		return nil, fmt.Errorf("%w: RouteWithdraw routes truncated", ErrInvalidFrame)
+	}
 	rw.Routes = make([]Route, routeCount)
 	for i := 0; i < routeCount && rd.err == nil; i++ {
 		route := &rw.Routes[i]
@@ -1166,6 +1180,9 @@ func DecodeNodeInfo(buf []byte) (*NodeInfo, error) {
 
 	// IPAddresses
 	ipCount := int(r.readUint8())
+	if ipCount > r.remaining() { // every address takes at least its length byte
+		return nil, fmt.Errorf("%w: NodeInfo IP addresses truncated", ErrInvalidFrame)
+	}
 	info.IPAddresses = make([]string, ipCount)
 	for i := 0; i < ipCount && r.err == nil; i++ {
 		info.IPAddresses[i] = r.readString()
@@ -1553,7 +1570,7 @@ func (u *UDPOpenAck) Encode() []byte {
 
 // DecodeUDPOpenAck deserializes UDPOpenAck from bytes.
 func DecodeUDPOpenAck(buf []byte) (*UDPOpenAck, error) {
-	if len(buf) < 12+EphemeralKeySize { // 8 + 1 + 1 + 2 + 32 minimum
+	if len(buf) < 11+EphemeralKeySize { // 8 + 1 + 2 + 32 minimum (empty addr + key)
 		return nil, fmt.Errorf("%w: UDPOpenAck too short", ErrInvalidFrame)
 	}
 
@@ -2195,6 +2212,12 @@ func (q *QueuedState) Encode() []byte {
 	return w.bytes()
 }
 
+// minQueuedEntrySize is the smallest encoding of one queued entry: a 2-byte length prefix plus
+// the shortest payload any of the entry decoders accepts (RouteWithdraw, 26 bytes). The entry
+// counts on the wire are only used as capacity hints bounded by this, so that a short frame
+// cannot make the decoder pre-allocate for 65535 entries.
+const minQueuedEntrySize = 2 + 26
+
 // DecodeQueuedState deserializes QueuedState from bytes.
 func DecodeQueuedState(buf []byte) (*QueuedState, error) {
 	if len(buf) < 8 { // 2+2+2+1+1 minimum (empty arrays, no commands)
@@ -2206,7 +2229,7 @@ func DecodeQueuedState(buf []byte) (*QueuedState, error) {
 
 	// Routes
 	routeCount := int(r.readUint16())
-	q.Routes = make([]RouteAdvertise, 0, routeCount)
+	q.Routes = make([]RouteAdvertise, 0, min(routeCount, r.remaining()/minQueuedEntrySize))
 	for i := 0; i < routeCount && r.err == nil; i++ {
 		length := int(r.readUint16())
 		data := r.readBytes(length)
@@ -2222,7 +2245,7 @@ func DecodeQueuedState(buf []byte) (*QueuedState, error) {
 
 	// Withdraws
 	withdrawCount := int(r.readUint16())
-	q.Withdraws = make([]RouteWithdraw, 0, withdrawCount)
+	q.Withdraws = make([]RouteWithdraw, 0, min(withdrawCount, r.remaining()/minQueuedEntrySize))
 	for i := 0; i < withdrawCount && r.err == nil; i++ {
 		length := int(r.readUint16())
 		data := r.readBytes(length)
@@ -2238,7 +2261,7 @@ func DecodeQueuedState(buf []byte) (*QueuedState, error) {
 
 	// NodeInfos
 	nodeInfoCount := int(r.readUint16())
-	q.NodeInfos = make([]NodeInfoAdvertise, 0, nodeInfoCount)
+	q.NodeInfos = make([]NodeInfoAdvertise, 0, min(nodeInfoCount, r.remaining()/minQueuedEntrySize))
 	for i := 0; i < nodeInfoCount && r.err == nil; i++ {
 		length := int(r.readUint16())
 		data := r.readBytes(length)
@@ -2259,7 +2282,8 @@ func DecodeQueuedState(buf []byte) (*QueuedState, error) {
 		sleepCmd, err := DecodeSleepCommand(sleepData)
 		if err == nil {
 			q.SleepCmd = sleepCmd
-			r.offset += 33 + len(sleepCmd.SeenBy)*16 // Advance past sleep command
+			// Advance past sleep command: origin(16) + id(8) + ts(8) + signature(64) + seenByLen(1) + seenBy
+			r.offset += 16 + 8 + 8 + SignatureSize + 1 + len(sleepCmd.SeenBy)*16
 		}
 	}
 
